@@ -207,3 +207,29 @@ def arc_write(path, xyz_nm, box=True):
             for a in range(x.shape[1]):
                 partner = a + 2 if a % 2 == 0 and a + 1 < x.shape[1] else a
                 f.write("%6d  %-3s%12.6f%12.6f%12.6f%6d%6d\n" % (a + 1, "N", x[k, a, 0], x[k, a, 1], x[k, a, 2], 24, partner))
+
+
+def trr_write_foreign(path, xyz_nm, box_nm=None, times=None, double=True, velocities=True, forces=True):
+    """GROMACS .trr as a double-precision build of GROMACS writes it, with velocity and force blocks (mdtraj itself only
+    writes single-precision positions).  XDR, big-endian: magic 1993, version string, 13 integers (block sizes, natoms, step,
+    nre), time and lambda, then box, positions, velocities, forces as reals of the file's precision."""
+    x = np.asarray(xyz_nm, np.float64)
+    nf, na = x.shape[:2]
+    real, rs = (">f8", 8) if double else (">f4", 4)
+    out = []
+    for k in range(nf):
+        hdr = _struct.pack(">3i", 1993, 13, 12) + b"GMX_trn_file"
+        sizes = [0, 0, 9 * rs if box_nm is not None else 0, 0, 0, 0, 0, na * 3 * rs, na * 3 * rs if velocities else 0,
+                 na * 3 * rs if forces else 0, na, k * 10, 0]
+        hdr += _struct.pack(">13i", *sizes)
+        tl = np.array([float(times[k]) if times is not None else float(k), 0.0]).astype(real).tobytes()
+        out.append(hdr + tl)
+        if box_nm is not None:
+            out.append(np.asarray(box_nm[k], np.float64).astype(real).tobytes())
+        out.append(x[k].astype(real).tobytes())
+        if velocities:
+            out.append((x[k] * 0.5 + 1000.0 + k).astype(real).tobytes())  # recognisable, never mistaken for positions
+        if forces:
+            out.append((-x[k] * 3.0 - 2000.0 - k).astype(real).tobytes())
+    with open(path, "wb") as f:
+        f.write(b"".join(out))
